@@ -60,6 +60,26 @@ theorem C01_dfa_stepwise (d : AV.DFA σ α) (hv : d.validate = .ok ()) (w : List
   simp only [DFA.readAux_eq wf false w (some d.init) wf.initOk, Bool.false_or, DFA.accepts]
   cases w <;> simp [List.scanl]
 
+/-- **`read_input_stepwise(w, ignore_rejection=True)`**: the same configurations — the
+initial one plus exactly one per symbol, each the transition function applied to the previous
+one — and NO exception at the end, whether or not the word is accepted (and no `KeyError`). -/
+theorem C01_dfa_stepwise_ignore (d : AV.DFA σ α) (hv : d.validate = .ok ()) (w : List α) :
+    d.readStepwise w true = (List.scanl d.step? (some d.init) w, none) := by
+  have wf := (DFA.validate_eq_ok d).mp hv
+  unfold DFA.readStepwise
+  simp only [DFA.readAux_eq wf true w (some d.init) wf.initOk, Bool.true_or, rejectUnless]
+  cases w <;> simp [List.scanl]
+
+/-- The flag only affects the terminating exception, never the yielded configurations. -/
+theorem C01_dfa_stepwise_flag_irrelevant (d : AV.DFA σ α) (hv : d.validate = .ok ()) (w : List α) :
+    (d.readStepwise w true).1 = (d.readStepwise w false).1 ∧
+    (d.readStepwise w true).1.length = w.length + 1 := by
+  rw [C01_dfa_stepwise_ignore d hv w]
+  have h := C01_dfa_stepwise d hv w
+  have h' : d.readStepwise w false = d.readStepwise w := rfl
+  rw [h', h]
+  simp
+
 /-- The number of yielded configurations is `|w| + 1`. -/
 theorem C01_dfa_stepwise_length (d : AV.DFA σ α) (hv : d.validate = .ok ()) (w : List α) :
     (d.readStepwise w).1.length = w.length + 1 := by
@@ -74,6 +94,27 @@ theorem C01_dfa_accepts_iff (d : AV.DFA σ α) (w : List α) :
   cases d.run (some d.init) w with
   | none => simp [DFA.isFinal]
   | some q => simp [DFA.isFinal]
+
+omit [DecidableEq σ] [DecidableEq α] in
+/-- The `k`-th element of a `scanl` is the fold over the first `k` elements. -/
+theorem getElem?_scanl {β γ : Type} (f : β → γ → β) (l : List γ) (b : β) (k : Nat) :
+    (List.scanl f b l)[k]? = if k ≤ l.length then some ((l.take k).foldl f b) else none := by
+  induction l generalizing b k with
+  | nil => cases k <;> simp
+  | cons a l ih =>
+    cases k with
+    | zero => simp [List.scanl_cons]
+    | succ k => simp [List.scanl_cons, ih]
+
+/-- **The `k`-th yielded configuration is the textbook run of the first `k` symbols**
+(Mathlib's `DFA.eval` on the prefix), for every `k ≤ |w|`; there is no `k`-th configuration
+beyond that. -/
+theorem C01_dfa_trace_nth (d : AV.DFA σ α) (hv : d.validate = .ok ()) (w : List α) (k : Nat) :
+    (d.readStepwise w).1[k]? =
+      if k ≤ w.length then some ((dfaTextbook d).eval (w.take k)) else none := by
+  rw [C01_dfa_stepwise d hv w]
+  simp only [getElem?_scanl, _root_.DFA.eval, dfaTextbook_evalFrom]
+  rfl
 
 /-- `read_input` returns the final configuration of the textbook run when the word is
 accepted and raises `RejectionException` (nothing else) otherwise. -/
@@ -187,6 +228,26 @@ theorem C01_nfa_stepwise (n : AV.NFA σ α) (hv : n.validate = .ok ()) (w : List
     ext p
     exact C01_nfa_closure n n.init p wf.initOk
 
+/-- **The `k`-th yielded configuration of the NFA reader, as a set, is Mathlib's `εNFA.eval`
+of the first `k` symbols** — the ε-closed set of states reachable on that prefix — for every
+`k ≤ |w|`; there is no `k`-th configuration beyond that. -/
+theorem C01_nfa_trace_nth (n : AV.NFA σ α) (hv : n.validate = .ok ()) (w : List α) (k : Nat) :
+    (k ≤ w.length → ∃ c, (n.readStepwise w).1[k]? = some c ∧
+      {p | p ∈ c} = (nfaTextbook n).eval (w.take k)) ∧
+    (w.length < k → (n.readStepwise w).1[k]? = none) ∧
+    (∀ c, (n.readStepwise w).1[k]? = some c → {p | p ∈ c} = (nfaTextbook n).eval (w.take k)) := by
+  have h := C01_nfa_stepwise n hv w
+  have hk : (n.readStepwise w).1[k]? =
+      if k ≤ w.length then some (n.runFrom (n.closure n.init) (w.take k)) else none := by
+    rw [h.1]; simp only [getElem?_scanl]; rfl
+  refine ⟨fun hle => ?_, fun hlt => ?_, fun c hc => ?_⟩
+  · exact ⟨_, by rw [hk, if_pos hle], h.2 (w.take k)⟩
+  · rw [hk, if_neg (by omega)]
+  · rw [hk] at hc
+    split at hc
+    · cases hc; exact h.2 (w.take k)
+    · cases hc
+
 theorem C01_nfa_stepwise_length (n : AV.NFA σ α) (hv : n.validate = .ok ()) (w : List α) :
     (n.readStepwise w).1.length = w.length + 1 := by
   rw [(C01_nfa_stepwise n hv w).1]; simp
@@ -263,6 +324,10 @@ def exDFA : AV.DFA Nat Nat :=
 
 example : exDFA.validate = .ok () := by decide
 example : exDFA.accepts [0, 1] = true ∧ exDFA.accepts [1, 1] = false ∧ exDFA.accepts [7] = false := by
+  decide
+-- ignore_rejection=True on a rejected word: all configurations (the sink included), no exception
+example : exDFA.readStepwise [1, 1, 0] true = ([some 0, some 1, none, none], none) ∧
+    exDFA.readStepwise [1, 1, 0] false = ([some 0, some 1, none, none], some (.lib .rejectionException)) := by
   decide
 
 /-- An NFA with an ε-cycle 0 ⇄ 1 and a state without a row. -/
